@@ -166,6 +166,26 @@ CHECKS = {
     ),
 }
 
+CHECKS["C19"] = (
+    "Hypothesis PBT over fault scripts x delivery schedules for a real generated PV formula with fallback; the harness plays the resampling actor and owns validity, delivery order, fallback lag and stream closing",
+    "Per tick every primary meter and fallback inverter is valid or missing, fallback samples arrive before/after/late, a primary "
+    "stream may be closed; source-identifying values make every output attributable to primary or fallback and to a tick. The "
+    "start-up delay after the first failure is checked to be bounded. A wall-clock watchdog turns an engine that spins without "
+    "yielding into a reported violation. Exploration level.",
+    "New subscriptions are served from the next tick (resampling-actor behaviour); primaries are delivered on time; when neither "
+    "source is valid nothing is demanded.",
+    "DESIGN.md section 3 C19",
+)
+CHECKS["C20"] = (
+    "Hypothesis PBT over subscription/message interleavings for a real DataSourcingActor on a fake API: exactly-once contiguous-run predicate per subscription with barrier-derived start limits",
+    "Subscriptions (new, duplicate, unknown component) are interleaved with data messages and quiescence barriers for meters, "
+    "inverters, batteries and EV chargers; each message carries its own number in every metric, so loss, duplication, "
+    "reordering, wrong metric and wrong timestamp are all visible per stream. Exploration level.",
+    "At most 30 messages between barriers (API receiver capacity 50); a message still queued when a request is processed may go to "
+    "the new subscriber.",
+    "DESIGN.md section 3 C20",
+)
+
 NOT_YET = "check not built yet in this round (design in DESIGN.md section 3); not claimed until its check runs clean"
 
 
